@@ -51,7 +51,8 @@ def run_case(case):
         return run_api(case, rng)
     trig = case["triggers"]
     n = len(trig)
-    srcs = [event.Source(trigger=t, path=(f"s{i}",)) for i, t in enumerate(trig)]
+    from vmon.simkit import omit
+    srcs = [event.Source(**omit(rng, "event.Source", trigger=t), path=(f"s{i}",)) for i, t in enumerate(trig)]
     emap = event.EventMap()
     first = []
     for s in case["add_history"]:
@@ -79,7 +80,7 @@ def run_case(case):
         return event.Monitor(em2, trigger=case["mon_trigger"])
 
     decoy(rng, twin)
-    dut = event.Monitor(emap, trigger=case["mon_trigger"])
+    dut = event.Monitor(emap, **omit(rng, "event.Monitor", trigger=case["mon_trigger"]))
     # bit k <-> source with index k
     by_bit = [srcs[s] for s in first]
     bit_trig = [trig[s] for s in first]
